@@ -860,6 +860,28 @@ class Matrix(Suite):
         return check_case(case)
 
 
+class StatusCodes(Suite):
+    """Every integer status 100..999 (the documented range, both ends included) on WSGI and ASGI, with a text body on
+    GET and on HEAD: same oracle as the matrix (status line / code delivered, bodiless statuses, Content-Length,
+    Content-Type rules)."""
+
+    name = 'status_codes'
+    exhaustive = True
+    budget = {'quick': 1, 'thorough': 1}
+
+    def cases(self, tier):
+        for stack in ('wsgi', 'asgi'):
+            for code in range(100, 1000):
+                for method in (('GET',) if 103 < code < 997 and code not in (204, 304) else ('GET', 'HEAD')):
+                    yield {'stack': stack, 'method': method, 'status': ['int', code], 'text': TEXT, 'data': None, 'media': None,
+                           'stream': None, 'ctype': None, 'clen': None}
+
+    def run(self, case):
+        info = check_case(case)
+        code = case['status'][1]
+        return Info(code in (100, 101, 102, 199, 200, 204, 304, 998, 999), info.labels)
+
+
 # ----------------------------------------------------------------- suite 2: exhaustive fault placement
 
 
@@ -1201,7 +1223,7 @@ class AfterError(Suite):
         return Info(any(case['pre']), [case['stack'], 'final:' + final] + (['rendered_before_raise'] if case['render'] else []))
 
 
-SUITES = [Matrix(), FaultEnum(), Generated(), AfterError()]
+SUITES = [Matrix(), StatusCodes(), FaultEnum(), Generated(), AfterError()]
 
 
 # ----------------------------------------------------------------- known findings (narrow predicates)
